@@ -1097,9 +1097,18 @@ fn main() {
             if i >= jobs.len() {
                 break;
             }
-            let lines = match &jobs[i] {
+            // a sequence that brings its own server down so badly that even closing it panics
+            // is a failed sequence (reported as such, with its id), not the end of the run
+            let (jid, jmode) = match &jobs[i] {
+                Job::Plain(id, m, _, _) | Job::Tls(id, m, _, _) => (id.clone(), *m),
+            };
+            let ran = std::panic::catch_unwind(std::panic::AssertUnwindSafe(|| match &jobs[i] {
                 Job::Plain(id, m, items, par) => run_sequence(&rt, id, *m, items.clone(), *par),
                 Job::Tls(id, m, items, par) => run_tls_sequence(&rt, id, *m, items.clone(), *par, &kit),
+            }));
+            let lines = match ran {
+                Ok(l) => l,
+                Err(_) => vec![format!("seq {} {} n=1 F1:disc,H0 => health=0 closed=0 unconnected=0", jid, mode_name(jmode))],
             };
             results.lock().unwrap()[i] = Some(lines);
         }));
